@@ -29,6 +29,11 @@ def ev(node, env):
             return env[node.id]
         if node.id in ('True', 'False', 'None'):
             return {'True': True, 'False': False, 'None': None}[node.id]
+        if env.get('__mod__') is not None:
+            # a module-level table / constant of the analysed file (a literal display)
+            r = env['__mod__'].resolve_name(node.id)
+            if isinstance(r, tuple) and r[0] == 'const':
+                return ev(r[1], {'__mod__': r[2] if len(r) > 2 else env['__mod__']})
         raise Unsupported('free name %s' % node.id)
     if isinstance(node, ast.Attribute):
         key = ast.unparse(node)
@@ -132,6 +137,8 @@ def ev(node, env):
                 raise Unsupported('arity of %s' % node.func.id)
             genv = dict(zip(params, args))
             genv['__funcs__'] = env['__funcs__']
+            if getattr(g, '_mod', None) is not None:
+                genv['__mod__'] = g._mod
             r, _ = run_function(g, genv)
             return r
     if isinstance(node, ast.Call) and env.get('__stubs__') and ast.unparse(node.func) in env['__stubs__'] and not node.keywords:
@@ -149,7 +156,7 @@ def ev(node, env):
             args = [ev(a, env) for a in node.args]
             if len(args) != len(params):
                 raise Unsupported('arity of self.%s' % node.func.attr)
-            genv = {k: v for k, v in env.items() if isinstance(k, str) and (k.startswith('self.') or k.startswith('__'))}
+            genv = {k: v for k, v in env.items() if isinstance(k, str) and (k.startswith('self.') or (k.startswith('__') and k != '__mod__'))}
             genv.update(zip(params, args))
             rv, out = run_function(g, genv)
             for k, v in out.items():
@@ -211,6 +218,8 @@ def run_function(f, env, max_steps=10000, skip_calls=False):
     if isinstance(f, ast.FunctionDef):
         if '__cls__' not in env and getattr(f, '_cls', None) is not None:
             env['__cls__'] = f._cls
+        if '__mod__' not in env and getattr(f, '_mod', None) is not None:
+            env['__mod__'] = f._mod
         if '__funcs__' not in env and getattr(f, '_mod', None) is not None:
             mod_ = f._mod
             env['__funcs__'] = lambda name: (lambda r: r if isinstance(r, ast.FunctionDef) else None)(mod_.resolve_name(name))
@@ -305,6 +314,8 @@ def run_function(f, env, max_steps=10000, skip_calls=False):
                 pass
             elif skip_calls and isinstance(s, ast.Expr) and isinstance(s.value, ast.Call):
                 pass
+            elif isinstance(s, ast.Expr) and isinstance(s.value, ast.Call):
+                ev(s.value, env)      # a checking helper of the same module / object: interpreted (it may raise)
             else:
                 raise Unsupported('statement %s' % type(s).__name__)
     try:
